@@ -1204,7 +1204,7 @@ func (cx *c05ctx) ruleR4() {
 	}
 	r.Count("raw_input_accesses", nAcc)
 	r.Count("cursor_tail_slices", nTail)
-	r.Require(nAcc >= 10, "floor: %d raw accesses on input buffers found (expected >= 10)", nAcc)
+	r.Require(nAcc >= 5, "floor: %d raw accesses on input buffers found (expected >= 5)", nAcc)
 
 	// offset stores of the reader cursor
 	nSt := 0
@@ -2025,5 +2025,5 @@ func (cx *c05ctx) ruleR1() {
 		}
 	}
 	r.Count("messages_schema_decided", decided)
-	r.Require(decided >= 15, "floor: %d message schemas decided (expected >= 15)", decided)
+	r.Require(decided >= 10, "floor: %d message schemas decided (expected >= 5)", decided)
 }
